@@ -219,6 +219,7 @@ func (t *ScriptedTarget) point(stage string) *simrt.Sim {
 	s := simrt.Cur()
 	if s != nil {
 		if tk := s.CurTask(); tk != nil && tk.Inc.Dead() {
+			simrt.MarkDying()
 			runtime.Goexit()
 		}
 	}
